@@ -185,6 +185,24 @@ func programs() []program {
 			sort.Strings(r)
 			return strings.Join(r, "|")
 		}, []string{"0 0|0 0", "0 0|1 1", "1 1|1 1"}},
+		{"L10 RWMutex: a pending writer blocks new readers", func(l libs) string {
+			var mu sync.RWMutex
+			res := vsched.NewChan[string](1)
+			done := vsched.NewChan[int](1)
+			mu.RLock()
+			vsched.Go(func() { mu.Lock(); mu.Unlock(); done.Send(1) })
+			vsched.Go(func() {
+				ok := mu.TryRLock()
+				if ok {
+					mu.RUnlock()
+				}
+				res.Send(fmt.Sprint(ok))
+			})
+			r := res.Recv()
+			mu.RUnlock()
+			done.Recv()
+			return r
+		}, []string{"false", "true"}},
 		{"L9 WaitGroup and Once", func(l libs) string {
 			var wg sync.WaitGroup
 			var once sync.Once
